@@ -540,6 +540,12 @@ def check(P, R):
             wname = c_.args[1].id
     reuse = [st for st in walk_shallow(ad.node) if isinstance(st, ast.Assign) and isinstance(st.value, ast.Name)
              and isinstance(st.targets[0], ast.Name) and st.targets[0].id == wname and st.value.id != nname]
+    if not reuse:
+        # the route variable may be another name than the freshly parsed one: the reuse is the binding of the *match result* to the name that is registered / returned
+        mres = {st.targets[0].id for st in walk_shallow(ad.node) if isinstance(st, ast.Assign) and isinstance(st.targets[0], ast.Name)
+                and isinstance(st.value, ast.Call) and (dotted(st.value.func) or '').endswith('_match')}
+        reuse = [st for st in walk_shallow(ad.node) if isinstance(st, ast.Assign) and isinstance(st.value, ast.Name) and st.value.id in mres
+                 and isinstance(st.targets[0], ast.Name) and st.targets[0].id != nname]
     R.require(reuse, '_add: reuse of an existing route (`route = route_`) not found')
     run = ag.node_of_stmt(reuse[0])[0]
     uses = []
@@ -584,6 +590,15 @@ def check(P, R):
     R.require(lit_tests or finds, 'RadiDict.get: literal child selection (`kidx = ic`) not found')
     for n in lit_tests:
         parts = bool_operands(n.ast, ast.And)
+        # a test of the position a search returned (`found >= 0`) is covered by the clause on the search itself
+        from_find = False
+        for x in ast.walk(n.ast):
+            if isinstance(x, ast.Name) and f.rd.is_local(x.id):
+                ds_ = f.rd.at(n, x.id)
+                if ds_ and all(d_.value is not None and any(c_ is y_ for c_ in finds for y_ in ast.walk(d_.value)) for d_ in ds_):
+                    from_find = True
+        if from_find:
+            continue
         guard = any(compare_parts(p) and compare_parts(p)[1] is ast.NotEq and
                     (_is_token_name(f, compare_parts(p)[0]) or _is_token_name(f, compare_parts(p)[2])) for p in parts)
         # or: the path is rejected / escaped before the search
@@ -731,6 +746,17 @@ def check(P, R):
             ok = len(rng) == 2 and src(rng[0]) == roles['cursor'] and bool(brk) and bool(ends) and all(src(x.value) == src(rng[1]) for x in ends) \
                 and len(jdefs) == 1 + len(ends)
             form, det = 'for-range', '' if ok else 'the range scan does not start at the cursor, does not stop at the separator, or does not end at the range end'
+        elif len(jdefs) == 1 and jdefs[0].kind == 'assign' and isinstance(jdefs[0].value, ast.Call) and dotted(jdefs[0].value.func) == 'next' and len(jdefs[0].value.args) == 2 \
+                and isinstance(jdefs[0].value.args[0], ast.GeneratorExp) and len(jdefs[0].value.args[0].generators) == 1:
+            # j = next((k for k in range(i, L) if route[k] == SEP), L)
+            ge_ = jdefs[0].value.args[0]
+            gen_ = ge_.generators[0]
+            kv_ = gen_.target.id if isinstance(gen_.target, ast.Name) else None
+            rng = gen_.iter.args if isinstance(gen_.iter, ast.Call) and dotted(gen_.iter.func) == 'range' else []
+            cond_ok = len(gen_.ifs) == 1 and compare_parts(gen_.ifs[0]) and compare_parts(gen_.ifs[0])[1] is ast.Eq and f'{roles["route"]}[{kv_}]' in src(gen_.ifs[0])
+            ok = kv_ is not None and isinstance(ge_.elt, ast.Name) and ge_.elt.id == kv_ and len(rng) == 2 and src(rng[0]) == roles['cursor'] and bool(cond_ok) \
+                and src(jdefs[0].value.args[1]) == src(rng[1])
+            form, det = 'next-range', '' if ok else 'the generator scan does not start at the cursor, does not stop at the separator, or does not default to the end'
         else:
             R.undecided('C01.i', f, d.stmt, f'{short(d.stmt)}: end of the plain wildcard value', 'no recogniser for how it is computed')
             continue
